@@ -264,7 +264,7 @@ func grunScenario(kind int, r *rand.Rand) (string, string) {
 	kafka.VerifSetGroupHandler(nil)
 	evs := kafka.VerifStop()
 	tr, _ := canon(evs, []string{"t"})
-	if n := settle(base, time.Second); n != 0 {
+	if n := settle(base, censusBound()); n != 0 {
 		status = append(status, "leak:"+strconv.Itoa(n))
 	}
 	st := "ok"
